@@ -166,10 +166,10 @@ def exec (M : Sem R B O Args Res κ ν) (calls : Nat → Call Args κ) : Schedul
 def initState (calls : Nat → Call Args κ) (S : Shared R B κ ν) : State R B Res κ ν :=
   { shared := S, locals := fun g => Local.init (calls g) }
 
-/-- the call alone: its script from start to end on brand-new shared state, `sync.Pool` empty -/
+/-- the call alone: the same semantics, one goroutine, its script run to the end on brand-new shared
+    state (empty pools, empty cache of any bound) -/
 def alone (M : Sem R B O Args Res κ ν) (c : Call Args κ) (maxSize : Nat) : Option Res :=
-  ((List.range (script c).length).foldl
-      (fun (p : Shared R B κ ν × Local R B Res ν) _ => stepG M c 0 p.1 p.2)
-      ({ runners := [], bufs := [], cache := LRU.empty maxSize }, Local.init c)).2.res
+  ((exec M (fun _ => c) (List.replicate (script c).length (0, 0))
+      (initState (fun _ => c) { runners := [], bufs := [], cache := LRU.empty maxSize })).locals 0).res
 
 end RegexVerif.Interleave
